@@ -42,7 +42,8 @@ PREFIX_LETTERS = "gsteuf"
 def plan(tier, seed):
     q = tier == "quick"
     n = 16 if q else 48
-    return [{"mode": "pairs", "seed": seed, "shard": i, "n": 36 if q else 300} for i in range(n)]
+    return [{"mode": "pairs", "seed": seed, "shard": i, "n": 36 if q else 300} for i in range(n)] + \
+        [{"mode": "history", "seed": seed, "shard": i, "n": 60 if q else 1500} for i in range(4)]
 
 
 def prefix_of(name):
@@ -52,12 +53,34 @@ def prefix_of(name):
     return ""
 
 
-def fresh(r, old, taken):
+# names the tool treats specially, by the syntactic class they are special in: parts of them and names containing
+# them are ordinary names of that class
+SPECIAL_BY_CLASS = {"id:global": ["environ"], "id:func": ["main"], "id:macro": ["NULL", "DEFINED"], "id:var": ["environ", "main"],
+                    "id:param": ["environ", "argc"], "id:member": ["environ", "main"]}
+
+
+def special_like(r, cls, n, upper=False):
+    out = []
+    for w in SPECIAL_BY_CLASS.get(cls, []):
+        out += [w[a:a + n] for a in range(0, len(w) - n + 1)]                    # parts
+        if n > len(w):
+            fillc = string.ascii_uppercase if w.isupper() else string.ascii_lowercase
+            pad = "".join(r.choice(fillc) for _ in range(n - len(w)))
+            out += [w + pad, pad + w]                                            # names containing it
+    out = [w for w in out if len(w) == n and w.isalpha()]
+    return r.choice(out) if out else None
+
+
+def fresh(r, old, taken, cls=None):
     pre = prefix_of(old)
     rest = old[len(pre):]
     for attempt in range(200):
         cand = None
-        if attempt < 3 and r.random() < 0.5 and rest.islower() and rest.isalpha():
+        if attempt < 2 and cls in SPECIAL_BY_CLASS and r.random() < 0.25 and rest.isalpha():
+            w = special_like(r, cls, len(rest))
+            if w and (w.isupper() == rest.isupper()) and (w.islower() == rest.islower()):
+                cand = pre + w
+        if cand is None and attempt < 3 and r.random() < 0.5 and rest.islower() and rest.isalpha():
             pool = HOSTILE_BY_LEN.get(len(rest), [])
             pool = [w for w in pool if w.isalpha()]
             if pool:
@@ -99,14 +122,63 @@ def rename(p, r):
         for j, (t, c) in enumerate(l.segs):
             if c in RENAMABLE:
                 if t not in names:
-                    names[t] = fresh(r, t, present | set(names.values()))
+                    names[t] = fresh(r, t, present | set(names.values()), c)
                 if names[t] != t:
                     changed += 1
                 l.segs[j] = (names[t], c)
     return q, changed, names
 
 
+PROBE = ("{T}\t*{F}({T} *{V}, char *p)\n{{\n\tint\tn;\n\n\tn = ({T})*p;\n\tn = ({T})&n + ({T})-n;\n\tn = sizeof({T}) + ({T})~n;\n"
+         "\t{V} = ({T} *)p;\n\tn = {M} * n + {M}(n);\n\tn = {G} + {F}(NULL, p)->{W};\n\t{T} * {V};\n\t{K}(n);\n\treturn (({T} *)p);\n}}\n")
+TWIN = ("#define {M} 1\n\ntypedef struct s_{S}\n{{\n\tint\t{W};\n}}\t{T};\n\n{T}\t{G};\n\nint\t{K}({T} {V})\n{{\n\t{T}\t{W};\n"
+        "\tstruct s_{S}\t*q;\n\n\t{W} = {V};\n\tq = &{W};\n\treturn (q->{W});\n}}\n")
+
+
+def name_set(r, like=None):
+    def low(n):
+        return "".join(r.choice(string.ascii_lowercase) for _ in range(n))
+    ln = like or {}
+    return {"T": "t_" + low(len(ln["T"]) - 2 if like else r.randint(2, 6)), "S": low(len(ln["S"]) if like else r.randint(1, 5)),
+            "V": low(len(ln["V"]) if like else r.randint(1, 6)), "W": low(len(ln["W"]) if like else r.randint(1, 6)),
+            "M": low(len(ln["M"]) if like else r.randint(2, 6)).upper(), "F": "ft_" + low(len(ln["F"]) - 3 if like else r.randint(2, 6)),
+            "K": low(len(ln["K"]) if like else r.randint(3, 7)), "G": "g_" + low(len(ln["G"]) - 2 if like else r.randint(1, 5))}
+
+
+def history_case(a, b, order):
+    """observations of the probe under names a and under names b, each analysed after the twin that declares names a"""
+    out = []
+    for ns in ((a, b) if order == 0 else (b, a)):
+        relwork.obs_of("twin.c", TWIN.format(**a))
+        out.append((ns is a, relwork.obs_of("probe.c", PROBE.format(**ns))[0]))
+    oa = [o for is_a, o in out if is_a][0]
+    ob = [o for is_a, o in out if not is_a][0]
+    return oa, ob
+
+
+def run_history(spec):
+    sh = Shard(max_per_sig=3)
+    r = random.Random("c18h/%s/%d" % (spec["seed"], spec["shard"]))
+    for k in range(spec["n"]):
+        a = name_set(r)
+        b = name_set(r, like=a)
+        if len(set(a.values())) < len(a) or len(set(b.values())) < len(b) or set(a.values()) & set(b.values()):
+            continue
+        if any(v in conf.KEYWORDS or v.upper() == "NULL" for v in list(a.values()) + list(b.values())):
+            continue
+        oa, ob = history_case(a, b, k % 2)
+        sh.case("hist\0" + repr(sorted(a.items())) + repr(sorted(b.items())))
+        sh.count("c18.obs_equal_after_a_file_declaring_the_original_names")
+        sh.tally("pairs", "after_twin")
+        if oa != ob:
+            d = relwork.diff(oa, ob)
+            sh.violation("obs_differs_after_history", relwork.sig_of_diff(d), {"mode": "history", "a": a, "b": b, "order": k % 2}, d)
+    return sh.result()
+
+
 def run_shard(spec):
+    if spec.get("mode") == "history":
+        return run_history(spec)
     sh = Shard(max_per_sig=3)
     r = random.Random("c18/%s/%d" % (spec["seed"], spec["shard"]))
     for p, tag in relwork.corpus(spec, nvar=3, force=("V40", "V41", "V42", "V38", "V39", "V43")):
@@ -129,6 +201,12 @@ def run_shard(spec):
 
 
 def replay(case, sh):
+    if case.get("mode") == "history":
+        oa, ob = history_case(case["a"], case["b"], case.get("order", 0))
+        sh.evaluations += 1
+        if oa != ob:
+            sh.violation("obs_differs_after_history", ("replay",), case, relwork.diff(oa, ob))
+        return
     a, _ = relwork.obs_of(case["name"], case["a"])
     b, _ = relwork.obs_of(case["name"], case["b"])
     sh.evaluations += 1
